@@ -80,6 +80,19 @@ def ingredients(rng, kbpk):
     for ver in "BD":
         h2 = make_header(rng, ver, rand_blocks(rng, 1))
         ops[f"unwrap-other-key-{ver}"] = ("unwrap", tr31.wrap(k2, h2, rb(rng, 16)))
+    # the same optional-block ids in another order (with other data, and with exactly the same data): after a load or unwrap the
+    # object holds the incoming header, order included, whatever ids it held before
+    ids3 = []
+    while len(ids3) < 3:
+        i_ = rs(rng, 2)
+        if i_.upper() != "PB" and i_ not in ids3:
+            ids3.append(i_)
+    data3 = {i_: rs(rng, rng.randrange(0, 6)) for i_ in ids3}
+    perms = [list(ids3), [ids3[2], ids3[0], ids3[1]], [ids3[1], ids3[0], ids3[2]]]
+    for n_, order in enumerate(perms):
+        hv = make_header(rng, "B" if len(kbpk) >= 16 else "A", [(i_, data3[i_] if n_ != 1 else rs(rng, 3)) for i_ in order])
+        ops[f"load-ok-perm{n_}"] = ("load", str(hv))
+        ops[f"unwrap-ok-perm{n_}"] = ("unwrap", tr31.wrap(kbpk, hv, rb(rng, 16)))
     ops["str"] = ("str", None)
     # the mapping methods optional blocks inherit (update, setdefault, pop, clear): the same validation and state as item assignment
     ops["update-ok"] = ("update", [(rs(rng, 2), rs(rng, 3)), ("KS", rs(rng, 5))])
@@ -227,6 +240,7 @@ def generate(rng, tier, seed):
              "unwrap-fail-bad-version", "load-ok", "load-fail-mid", "setblock-KS", "delblock-KS", "wrap", "str",
              "load-ok-foreign-pad-B", "load-ok-D-algA", "load-ok-A-algT",
              "setkbpk-other", "unwrap-other-key-B", "unwrap-other-key-D"]
+    alpha += ["load-ok-perm0", "load-ok-perm2", "unwrap-ok-perm0", "unwrap-ok-perm1", "unwrap-ok-perm2"]
     L = 2 if tier == "quick" else 3
     for ln in range(1, L + 1):
         for names in itertools.product(alpha, repeat=ln):
